@@ -7,6 +7,7 @@ import (
 	"encoding/hex"
 	"encoding/json"
 	"fmt"
+	"github.com/jcmturner/gofork/encoding/asn1"
 	"io"
 	"log"
 	"net/http"
@@ -471,6 +472,52 @@ func TestC20(t *testing.T) {
 			cl2.Destroy()
 			kdc.close()
 			ls.check("client log (refused reply:"+d.name+")", lb.Bytes())
+		}
+	}
+	// --- pre-authentication hints that cannot be honoured (an unauthenticated KDC_ERR_PREAUTH_REQUIRED may say
+	// anything): string-to-key fails, and what the failure says goes to the caller and the log ---
+	{
+		type badHint struct {
+			name   string
+			et     int32
+			params []byte
+		}
+		for _, bh := range []badHint{{"iterations-above-the-limit", 18, []byte{2, 0, 0, 0}}, {"iterations-2^32-1", 17, []byte{0xff, 0xff, 0xff, 0xff}}, {"three-octet-params", 18, []byte{0, 0, 0x10}},
+			{"des3-with-params", 16, []byte{0, 0, 0, 0}}, {"rc4-with-params", 23, []byte{0, 0, 0, 1}}, {"sha2-five-octet-params", 20, []byte{0, 0, 0, 0x80, 0}}, {"sha2-iterations-above-the-limit", 19, []byte{0x7f, 0, 0, 0}}} {
+			ei, _ := asn1.Marshal(types.ETypeInfo2{{EType: bh.et, Salt: "SALT." + c09Realm + c09User, S2KParams: bh.params}})
+			pas := types.PADataSequence{{PADataType: 19, PADataValue: ei}}
+			cn := types.PrincipalName{NameType: 1, NameString: []string{c09User}}
+			surface := "(hint that cannot be honoured: " + bh.name + ")"
+			Protect(func() {
+				_, _, kerr := crypto.GetKeyFromPassword(clientPassword, cn, c09Realm, bh.et, pas)
+				ls.err("crypto.GetKeyFromPassword"+surface, kerr)
+			})
+			kdc := startFuncKDC(func(req []byte) []byte {
+				var a messages.ASReq
+				if a.Unmarshal(req) != nil {
+					return nil
+				}
+				e := messages.NewKRBError(a.ReqBody.SName, c09Realm, 25, "Additional pre-authentication required")
+				e.CName, e.CRealm = a.ReqBody.CName, a.ReqBody.Realm
+				e.EData, _ = asn1.Marshal(pas)
+				b, _ := e.Marshal()
+				return b
+			})
+			var lb bytes.Buffer
+			cfgH := c09Config(5*time.Minute, kdc.port)
+			cfgH.LibDefaults.DefaultTktEnctypeIDs = []int32{bh.et, 18}
+			cfgH.LibDefaults.PermittedEnctypeIDs = append(cfgH.LibDefaults.PermittedEnctypeIDs, bh.et)
+			cl6 := client.NewWithPassword(c09User, c09Realm, clientPassword, cfgH, client.DisablePAFXFAST(true), client.Logger(log.New(&lb, "", 0)))
+			Protect(func() {
+				ls.err("Client.Login"+surface, cl6.Login())
+				ls.err("Client.AffirmLogin"+surface, cl6.AffirmLogin())
+				var w bytes.Buffer
+				ls.err("Client.Diagnostics"+surface, cl6.Diagnostics(&w))
+				ls.check("Client.Diagnostics output"+surface, w.Bytes())
+			})
+			cl6.Destroy()
+			kdc.close()
+			ls.check("client log"+surface, lb.Bytes())
 		}
 	}
 	// --- Diagnostics of a keytab client whose keytab holds two different keys for one principal, key version
